@@ -163,6 +163,24 @@ def compare_modes(rng: Any, ctx: Ctx, s: Any, op: Any, min_tol: float = 0.0) -> 
         LOG.evaluated('C18.jit-closure')
         if why0:
             LOG.violation('C18', 'C18.jit-closure', f'{type(op).__name__}/jit-constant-input/{why0.split(" ")[0]}', why0, expr=dense.describe(op))
+    if rng.integers(4) == 0 and 'InverseOperator' not in names:
+        # the same data handed over as NumPy arrays (converted at the jit boundary, used as they are eagerly): same result, and
+        # the caller's arrays are left alone
+        xn = jax.tree.map(lambda l: np.array(l), x)
+        keep = jax.tree.map(lambda l: l.copy(), xn)
+        try:
+            yn = op.mv(xn)
+        except Exception:  # noqa: BLE001 - NumPy inputs are a convenience, not every operator takes them
+            LOG.count('C18.numpy-input', 'refused')
+        else:
+            LOG.count('C18.numpy-input', 'applied')
+            LOG.evaluated('C18.jit-closure')
+            why_n = same_tree(y, jax.tree.map(jnp.asarray, yn), tol)
+            if why_n:
+                LOG.violation('C18', 'C18.jit-closure', f'{top}/numpy-input/{why_n.split(" ")[0]}', 'eager result on NumPy inputs differs from the result on JAX arrays: ' + why_n,
+                              expr=dense.describe(op))
+            elif any(not np.array_equal(a, b) for a, b in zip(jax.tree.leaves(xn), jax.tree.leaves(keep))):
+                LOG.violation('C18', 'C18.jit-closure', f'{top}/numpy-input/input-modified', 'the operator modified the arrays it was given', expr=dense.describe(op))
     nleaves = len(jax.tree.leaves(op))
     LOG.case_key(f'{dense.skeleton(op)}:{struct_kind(s)}', nleaves >= 1 or True)
     for n in names:
